@@ -61,6 +61,13 @@ Theorem C16_r2a_valid_held_until_accepted_or_reset :
   b_reset i = false ->
   r2a_tvalid (r2a_run DW (pre ++ [i])) = 1.
 Proof. exact S_r2a_valid_held_until_accepted_or_reset. Qed.
+(* ... and a reset does withdraw it: reset clears VALID, sent and active in any cycle; done clears sent and active *)
+Theorem C16_r2a_reset_done_clear :
+  forall DW pre i, 1 <= DW ->
+  (b_reset i = true -> r2a_tvalid (r2a_run DW (pre ++ [i])) = 0 /\ r2a_sent (r2a_run DW (pre ++ [i])) = 0 /\ r2a_active (r2a_run DW (pre ++ [i])) = 0) /\
+  (b_done i = true -> r2a_sent (r2a_run DW (pre ++ [i])) = 0 /\ r2a_active (r2a_run DW (pre ++ [i])) = 0).
+Proof. exact S_r2a_reset_done_clear. Qed.
+
 (* VALID is raised only by a load pulse taken while active *)
 Theorem C16_r2a_valid_raised_only_by_load :
   forall DW pre i, 1 <= DW ->
@@ -184,6 +191,7 @@ Print Assumptions C16_a2r_cycle.
 Print Assumptions C16_a2r_idle_is_clear.
 Print Assumptions C16_r2a_refines_reference.
 Print Assumptions C16_r2a_valid_held_until_accepted_or_reset.
+Print Assumptions C16_r2a_reset_done_clear.
 Print Assumptions C16_r2a_valid_raised_only_by_load.
 Print Assumptions C16_r2a_tdata_is_latest_load.
 Print Assumptions C16_r2a_tdata_value_preserved.
